@@ -223,7 +223,7 @@ def coq_eval_cases(ctx, header, cases, check_fn, case_type=None, per_file=300, t
         if not m:
             err = 'unparseable coqc output for %s: %s' % (os.path.basename(path), out[-500:])
             continue
-        body = m.group(1).strip()
+        body = m.group(1).replace('%nat', '').strip()
         if body:
             bad += [k + int(x) for x in re.split(r'[;\s]+', body) if x.strip()]
     return sorted(bad), err
@@ -300,7 +300,10 @@ def match_finding(v, findings):
 class Outcome:
     """What a property module returns from run()."""
 
+    LAST = None
+
     def __init__(self):
+        Outcome.LAST = self
         self.evaluations = 0
         self.distinct_nontrivial = 0
         self.rule = ''
